@@ -197,8 +197,37 @@ func genC01(c *Ctx) {
 }
 
 // availability sweep for C04
+// c04BigNumbers: a segment number beyond 32 bits names no segment that exists or will exist in this century: it is not
+// answered with the segment whose number it is congruent to modulo 2^32 (nor, later, with 410 for it).
+func c04BigNumbers(c *Ctx) {
+	for _, name := range []string{"testpic_2s", "testpic_8s"} {
+		a := findVAsset(name)
+		if a == nil {
+			continue
+		}
+		for ri := range a.Reps {
+			rp := &a.Reps[ri]
+			if !strings.Contains(rp.MediaURI, "$Number$") {
+				continue
+			}
+			for _, k := range []int64{25, 26, 40} {
+				now := (k + 2) * int64(a.SegmentDurMS)
+				for _, add := range []int64{1 << 32, 3 << 32} {
+					u := fmt.Sprintf("/livesim2/%s/%s?nowMS=%d", a.AssetPath, strings.ReplaceAll(rp.MediaURI, "$Number$", strconv.FormatInt(k+add, 10)), now)
+					res := doLive("GET", u)
+					c.Count("big-number-requests")
+					if res.code == 200 || res.code == 410 || res.panicked != "" {
+						c.Violate("unexpected-status", fmt.Sprintf("segment number %d (= %d + k·2^32) of %s is answered %d %s: the number wrapped around to segment %d", k+add, k, rp.ID, res.code, res.panicked, k), []string{"# GET " + u}, nil)
+					}
+				}
+			}
+		}
+	}
+}
+
 func genC04(c *Ctx) {
 	c.emitAssetDefs()
+	c04BigNumbers(c)
 	r := c.Rng
 	atos := []int{0, 500, 1500, 250, -1}
 	tsbds := []int{0, 60, 10, 172800}
